@@ -535,6 +535,28 @@ class Sym:
         r[C.zero] = rr
         return Sym(r)
 
+    def fmod(s, m):
+        """C remainder (numpy.fmod): sign of the dividend, magnitude below m; a fresh real per
+        distinct argument constrained by exactly that contract"""
+        c0 = z3.simplify(s.c0, som=True)
+        if is_val(c0):
+            f = val(c0)
+            q = abs(f) // Fr(m)
+            r = dict(s.co)
+            r[C.zero] = rat((abs(f) - q * Fr(m)) * (1 if f >= 0 else -1))
+            return Sym(r)
+        key = ('mod', c0.get_id(), m, 'fmod')
+        if key not in C.memo:
+            rr = C.fresh('fmod')
+            C.cons += [z3.Implies(c0 >= 0, z3.And(rr >= 0, rr < rat(m))),
+                       z3.Implies(c0 <= 0, z3.And(rr <= 0, rr > -rat(m)))]
+            C.defs[str(rr)] = ('fmod', c0, m)
+            C.memo[key] = (rr, c0)
+            C.keep.append(c0)
+        r = dict(s.co)
+        r[C.zero] = C.memo[key][0]
+        return Sym(r)
+
     def d(s, i=0):
         """derivative w.r.t. formal variable i"""
         out = {}
@@ -906,6 +928,23 @@ class SymNP:
     radians = deg2rad
     degrees = rad2deg
 
+    def fmod(self, a, m):
+        if isinstance(a, Sym):
+            return a.fmod(m)
+        if hasattr(a, 'values') and hasattr(a, 'index') and not isinstance(a, np.ndarray):
+            import pandas as pd
+            vals = self.fmod(np.asarray(a.values, dtype=object), m)
+            if isinstance(a, pd.DataFrame):
+                return pd.DataFrame(vals, index=a.index, columns=a.columns, dtype=object)
+            return pd.Series(vals, index=a.index, dtype=object)
+        a = self.asarray(a)
+        if a.dtype != object:
+            return np.fmod(a, m)
+        out = np.empty(a.shape, dtype=object)
+        for idx in np.ndindex(a.shape):
+            out[idx] = J(a[idx]).fmod(m)
+        return out if out.ndim else out[()]
+
     def abs(self, a):
         if isinstance(a, Sym):
             return abs(a)
@@ -1050,6 +1089,8 @@ class Evaluator:
             v = math.fmod(self.ev(d[1]), d[2])
             if v < 0:
                 v += d[2]
+        elif kind == 'fmod':
+            v = math.fmod(self.ev(d[1]), d[2])
         elif kind == 'value':
             v = d[1](self)
         else:
